@@ -1,8 +1,10 @@
 (* C01 — One consistent tree: every navigation view agrees after any edit history.
    Property theorems only: each is closed by [exact] of a lemma proved in Proofs/, followed by
-   Print Assumptions. *)
+   Print Assumptions.  [rep1 h T linked] (Spec/Tree.v) says that the six links of the heap h
+   describe the ordered tree T; the theorems below say that then every traversal generator of
+   the code (Model/Iter.v) returns what the pre-order walk of the child lists dictates. *)
 From Coq Require Import List Arith Bool.
-From BS Require Import Base.Sexp Model.Heap Model.Edit Proofs.HeapBasics.
+From BS Require Import Base.Sexp Model.Heap Model.Edit Model.Iter Spec.Tree Proofs.HeapBasics Proofs.Views.
 Import ListNotations.
 
 (* what extract() hands back has no parent, no siblings and nothing before it — for every heap *)
@@ -11,3 +13,57 @@ Theorem C01_extract_detached : forall fuel h x,
   par (h' x) = None /\ ps (h' x) = None /\ ns (h' x) = None /\ pe (h' x) = None.
 Proof. exact extract_detached. Qed.
 Print Assumptions C01_extract_detached.
+
+(* next_elements / previous_elements = the rest / the reversed beginning of the pre-order *)
+Theorem C01_next_elements : forall h T linked i x fuel, rep1 h T linked ->
+  nth_error (echain_of T linked) i = Some x -> length (pre T) <= fuel ->
+  next_elements fuel h x = skipn (S i) (echain_of T linked).
+Proof. exact next_elements_spec. Qed.
+Print Assumptions C01_next_elements.
+
+Theorem C01_previous_elements : forall h T linked i x fuel, rep1 h T linked ->
+  nth_error (echain_of T linked) i = Some x -> length (pre T) <= fuel ->
+  previous_elements fuel h x = rev (firstn i (echain_of T linked)).
+Proof. exact previous_elements_spec. Qed.
+Print Assumptions C01_previous_elements.
+
+(* the document root may stand outside the chain; it then sees nothing in either direction *)
+Theorem C01_unlinked_root : forall h T fuel, rep1 h T false ->
+  next_elements fuel h (rid T) = [] /\ previous_elements fuel h (rid T) = [].
+Proof. exact unlinked_root_views. Qed.
+Print Assumptions C01_unlinked_root.
+
+(* siblings = the rest / the reversed beginning of the parent's child list *)
+Theorem C01_next_siblings : forall h T linked t j c fuel, rep1 h T linked -> In t (subterms T) ->
+  nth_error (map rid (tkids t)) j = Some c -> length (pre T) <= fuel ->
+  next_siblings fuel h c = skipn (S j) (map rid (tkids t)).
+Proof. exact next_siblings_spec. Qed.
+Print Assumptions C01_next_siblings.
+
+Theorem C01_previous_siblings : forall h T linked t j c fuel, rep1 h T linked -> In t (subterms T) ->
+  nth_error (map rid (tkids t)) j = Some c -> length (pre T) <= fuel ->
+  previous_siblings fuel h c = rev (firstn j (map rid (tkids t))).
+Proof. exact previous_siblings_spec. Qed.
+Print Assumptions C01_previous_siblings.
+
+Theorem C01_root_has_no_siblings : forall h T linked fuel, rep1 h T linked ->
+  next_siblings fuel h (rid T) = [] /\ previous_siblings fuel h (rid T) = [].
+Proof. exact root_has_no_siblings. Qed.
+Print Assumptions C01_root_has_no_siblings.
+
+(* parents = the path from the root, innermost first *)
+Theorem C01_parents : forall h T linked x anc fuel, rep1 h T linked ->
+  path_to x T = Some anc -> length (pre T) <= fuel -> parents fuel h x = rev anc.
+Proof. exact parents_spec'. Qed.
+Print Assumptions C01_parents.
+
+(* descendants of any node = the pre-order of its subtree without the node itself *)
+Theorem C01_descendants : forall h T linked t fuel, rep1 h T linked -> In t (subterms T) ->
+  length (pre T) <= fuel -> descendants fuel h (rid t) = tl (pre t).
+Proof. exact descendants_spec'. Qed.
+Print Assumptions C01_descendants.
+
+(* no element occupies two places *)
+Theorem C01_no_duplicates : forall h T linked, rep1 h T linked -> NoDup (pre T).
+Proof. exact rep1_NoDup. Qed.
+Print Assumptions C01_no_duplicates.
